@@ -52,6 +52,11 @@ func actor(id, host, label string) M {
 	return M{"type": "Person", "id": id, "name": label + " " + tag(host), "preferredUsername": "u", "summary": "bio " + tag(host), "verifServedBy": canonHost(host)}
 }
 
+// attackers: an unrelated host, a second ordinary host, and two whose names differ from the
+// victim's only in a way a sloppy host comparison may ignore (another port; trailing
+// characters that also occur in ":443")
+var attackers = []string{evil, h2, "https://h1.example:4433", "https://h1.example4"}
+
 var w = world.New()
 
 func serveOn(host, path string, doc any) string {
@@ -395,8 +400,9 @@ func baseWorld() {
 	serial = 0
 	w.Put(V, world.JSON(note(V, h1, "V genuine")))
 	w.Put(A, world.JSON(actor(A, h1, "A genuine")))
-	w.Put(evil+"/users/mallory", world.JSON(actor(evil+"/users/mallory", evil, "mallory")))
-	w.Put(h2+"/users/mallory", world.JSON(actor(h2+"/users/mallory", h2, "h2 mallory")))
+	for _, a := range attackers {
+		w.Put(a+"/users/mallory", world.JSON(actor(a+"/users/mallory", a, "mallory")))
+	}
 }
 
 func runAttack(r *ev.Report, from string, sl slot, pr pres, warm string, cacheSize int) {
@@ -503,7 +509,7 @@ func refDecoded(ref any) any {
 
 func main() {
 	r := ev.New("C02", "model_checking",
-		"attack worlds: attacker host in {evil, h2} x 17 reference slots (inReplyTo, attributedTo, audience, reply item, activity object/actor, Create object, an inline Create wrapper with a claimed id, outbox item, collection item, first page; and five where a genuine document of the victim's host points at a collection or page served by the attacker without an id) x 20 presentations of a forged copy of h1's note or actor "+
+		"attack worlds: attacker host in {evil, h2, the victim's name on another port, the victim's name with a trailing digit} x 17 reference slots (inReplyTo, attributedTo, audience, reply item, activity object/actor, Create object, an inline Create wrapper with a claimed id, outbox item, collection item, first page; and five where a genuine document of the victim's host points at a collection or page served by the attacker without an id) x 20 presentations of a forged copy of h1's note or actor "+
 			"(embedded copy, stubs, URL to a forging path, redirects to the victim / a third-host copy / relative, victim-host open redirect, open redirect used as id, id with :443 / upper case / userinfo / trailing dot / missing / wrong type, genuine URL) "+
 			"x warming history {cold, victim cached, reference cached, carrier fetched before; thorough: also every ordered pair of these} x cache size {1,2,128}; each through pub.New (by URL twice, embedded with attacker source, embedded without source) with every reachable item inspected, and through client.FetchUnknown three times; "+
 			"every object names its serving host in its visible text and in a stamp; distinct_nontrivial = attack cases (not the genuine-URL control)")
@@ -542,7 +548,7 @@ func main() {
 		sizes = []int{128, 1}
 	}
 	states := map[string]bool{}
-	for _, from := range []string{evil, h2} {
+	for _, from := range attackers {
 		for _, sl := range slots() {
 			for _, pr := range presentations() {
 				for _, warm := range warms {
